@@ -16,10 +16,12 @@ git apply "$D/patch.diff"
 passed=$(grep -E "^test result" $W.suite.log | head -1)
 cp "$D/demo.rs" ffuzzy/tests/seed_demo.rs
 DF=""; if grep -q '"demo_needs_cfg": *true' "$D/meta.json" 2>/dev/null; then DF="--cfg a4lg_ffuzzy_verif"; fi
-( cd ffuzzy && RUSTFLAGS="$DF" cargo test --offline --test seed_demo > $W.demo1.log 2>&1 ); demo_with=$?
-( cd ffuzzy && RUSTFLAGS="$DF" cargo test --release --offline --test seed_demo > $W.demo1r.log 2>&1 ); demo_with_rel=$?
+DEMO_CMD=$(python3 -c "import json,sys; print(json.load(open(sys.argv[1])).get('demo_cmd',''))" "$D/meta.json" 2>/dev/null)
+FEAT=$(echo "$DEMO_CMD" | grep -o -- "--features [a-z,+-]*" | head -1)
+( cd ffuzzy && RUSTFLAGS="$DF" cargo test --offline $FEAT --test seed_demo > $W.demo1.log 2>&1 ); demo_with=$?
+( cd ffuzzy && RUSTFLAGS="$DF" cargo test --release --offline $FEAT --test seed_demo > $W.demo1r.log 2>&1 ); demo_with_rel=$?
 git checkout -- .
-( cd ffuzzy && RUSTFLAGS="$DF" cargo test --offline --test seed_demo > $W.demo0.log 2>&1 ); demo_without=$?
+( cd ffuzzy && RUSTFLAGS="$DF" cargo test --offline $FEAT --test seed_demo > $W.demo0.log 2>&1 ); demo_without=$?
 rm -f ffuzzy/tests/seed_demo.rs
 echo "suite_exit=$suite ($passed) demo_with_mutant_exit=$demo_with demo_with_mutant_release_exit=$demo_with_rel demo_without_exit=$demo_without"
 if [ $suite -eq 0 ] && [ $demo_with -ne 0 ] && [ $demo_without -eq 0 ]; then echo CONFIRMED; exit 0; else echo NOT-CONFIRMED; exit 1; fi
